@@ -54,228 +54,65 @@
 #include "client/QXmppVCardManager.cpp"
 #include "client/QXmppRosterManager.cpp"
 #include "client/QXmppDiscoveryManager.cpp"
-#include "client/QXmppVersionManager.cpp"
-#include "client/QXmppEntityTimeManager.cpp"
 #undef private
 #undef protected
 // the real moc output of the build (signal bodies, staticMetaObject)
 #include "QXmppQt5_autogen/7EM65HM6UG/moc_QXmppVCardManager.cpp"
 #include "QXmppQt5_autogen/7EM65HM6UG/moc_QXmppRosterManager.cpp"
 #include "QXmppQt5_autogen/7EM65HM6UG/moc_QXmppDiscoveryManager.cpp"
-#include "QXmppQt5_autogen/7EM65HM6UG/moc_QXmppVersionManager.cpp"
-#include "QXmppQt5_autogen/7EM65HM6UG/moc_QXmppEntityTimeManager.cpp"
 
-// ------------------------------------------------------------------------------------------------ environment
-static QString g_ownBare;
-static char g_cfgRaw[16];
-static char g_clientRaw[64];
-static QXmppClient *theClient() { return reinterpret_cast<QXmppClient *>(g_clientRaw); }
-static int g_nreplyCalls, g_nsendPacketCalls;
-static bool g_replyHadMeta;
+#include "c08_mgr_env.h"
 
-QXmppConfiguration &QXmppClient::configuration() { return *reinterpret_cast<QXmppConfiguration *>(g_cfgRaw); }
-QString QXmppConfiguration::jidBare() const { return g_ownBare; }
-bool QXmppClient::sendPacket(const QXmppNonza &p)
-{
-    g_nsendPacketCalls++;
-    wireLog(p);
-    return vp_bool();   // sending may fail; whether a reply is owed does not depend on it
-}
-QXmppTask<QXmpp::SendResult> QXmppClient::reply(QXmppStanza &&stanza, const std::optional<QXmppE2eeMetadata> &e2ee, const std::optional<QXmppSendStanzaParams> &)
-{
-    g_nreplyCalls++;
-    g_replyHadMeta = e2ee.has_value();
-    wireLog(stanza);
-    QXmppPromise<QXmpp::SendResult> p;
-    return p.task();
-}
-// QXmppDiscoveryManager::capabilities() (feature list of all extensions; content is C20's subject) is cut: see c08_mgr.c
-extern "C" void vp_c08_empty_disco(QXmppDiscoveryIq *out) { new (out) QXmppDiscoveryIq; }
-static void keepHooks() { if (vp_c08_false()) vp_c08_empty_disco(nullptr); }
-
-#ifndef C08_HASFROM
-#define C08_HASFROM true
-#endif
-static void symOwnJid()
-{
-    internAttrs();
-    keepHooks();
-    g_ownBare = vpSymStringNonEmpty(2);
-    for (int i = 0; i < 2; i++) { if (i < g_ownBare.size()) vp_assume(g_ownBare.at(i) != QChar(u'/')); }   // a bare JID has no resource part
-}
-
-// ------------------------------------------------------------------------------------------------ (1) typed request helper
-static constexpr unsigned IQH_SHAPES[8] = { SH_NONE, SH_PING, SH_VERSION, SH_TIME, SH_QUERY_NONS, SH_VCARD_IN_VERSION_NS, SH_QUERY_IN_TIME_NS, SH_PING_THEN_VERSION };
-// checkIsIqRequest: request <=> <iq> with type get or set; reports tag and namespace of the FIRST child element
-template<bool IS_IQ> struct CheckCase {
-    template<unsigned TY, unsigned K> static void run()
-    {
-        SymIq q;
-        symIq(q, TY, IQH_SHAPES[K], true, IS_IQ ? L("iq") : L("message"));
-        auto [isRequest, tagName, xmlns] = QXmpp::Private::checkIsIqRequest(q.iq);
-        vp_assert(isRequest == (IS_IQ && q.isRequest()), "C08 checkIsIqRequest: a request is exactly an <iq/> of type get or set");
-        if (isRequest) {
-            QString t, n;
-            if (q.nch >= 1) { vp_c08_pick_tag(&t, q.tag[0]); vp_c08_pick_ns(&n, q.effNs(0)); }
-            vp_assert(tagName == t && xmlns == n, "C08 checkIsIqRequest reports tag and namespace of the first child element (empty if none)");
-        }
-        vp_assert(g_nsent == 0, "C08 checkIsIqRequest sends nothing");
-    }
-};
-extern "C" void h_iqh_check() { internAttrs(); keepHooks(); if (vp_bool()) { DISPATCH_REQ(CheckCase<true>::template run); } else { DISPATCH_RESP(CheckCase<true>::template run); } }
-extern "C" void h_iqh_check_noiq() { internAttrs(); keepHooks(); if (vp_bool()) { DISPATCH_REQ(CheckCase<false>::template run); } else { DISPATCH_RESP(CheckCase<false>::template run); } }
-// sendIqReply: exactly one stanza, to = requester, id = request id, type result unless the handler made it an error
-template<unsigned C> static void replyCase()
-{
-    const unsigned t = C >> 1;   // QXmppIq::Type: Error, Get, Set, Result
-    const bool withMeta = (C & 1);
-    const QString id = vpSymString(C08_IDLEN), from = vpSymString(C08_FROMLEN);
-    QXmppIq iq; iq.setType(QXmppIq::Type(t));
-    iq.setId(vpSymString(1)); iq.setTo(vpSymString(1));   // whatever the handler left there
-    std::optional<QXmppE2eeMetadata> meta;
-    if (withMeta) meta.emplace();
-    QXmpp::Private::sendIqReply(theClient(), id, from, meta, std::move(iq));
-    vp_assert(g_nreplyCalls == 1 && g_nsent == 1 && g_nsendPacketCalls == 0, "C08 sendIqReply hands exactly one stanza to QXmppClient::reply");
-    vp_assert(g_replyHadMeta == withMeta, "C08 sendIqReply passes the e2ee metadata of the request on to QXmppClient::reply");
-    const QDomElement &a = g_sent[0];
-    vp_assert(a.tagName() == L("iq") && a.attribute(L("id")) == id && a.attribute(L("to")) == from, "C08 sendIqReply: reply is an iq with the request id, addressed to the requester");
-    vp_assert(a.attribute(L("type")) == (t == QXmppIq::Error ? L("error") : L("result")), "C08 sendIqReply: type is result unless the handler returned an error iq");
-}
-extern "C" void h_iqh_reply()
-{
-    internAttrs(); keepHooks();
-    unsigned c = vp_u8(); vp_assume(c < 8);
-    switch (c) { case 0: replyCase<0>(); break; case 1: replyCase<1>(); break; case 2: replyCase<2>(); break; case 3: replyCase<3>(); break;
-                 case 4: replyCase<4>(); break; case 5: replyCase<5>(); break; case 6: replyCase<6>(); break; default: replyCase<7>(); break; }
-}
-// handleIqRequests<A, B> with a handler object: variant<Iq, Error> for A, plain Iq for B
-struct Handler {
-    int calls = 0; int which = 0;
-    unsigned outcome;      // 0 result iq (left at the default type 'get' / 'set'), 1 stanza error, 2 iq the handler already marked as error
-    std::variant<QXmppVersionIq, QXmppStanza::Error> handleIq(QXmppVersionIq &&)
-    {
-        calls++; which = 1;
-        if (outcome == 1) return QXmppStanza::Error(QXmppStanza::Error::Cancel, QXmppStanza::Error::BadRequest, QString());
-        QXmppVersionIq r;
-        r.setType(outcome == 2 ? QXmppIq::Error : QXmppIq::Get);   // default-constructed iqs are 'get': must still go out as result
-        return r;
-    }
-    QXmppEntityTimeIq handleIq(QXmppEntityTimeIq &&)
-    {
-        calls++; which = 2;
-        QXmppEntityTimeIq r;
-        r.setType(outcome == 2 ? QXmppIq::Error : QXmppIq::Set);
-        return r;
-    }
-};
-template<unsigned OUTCOME> struct HandleCase {
-    template<unsigned TY, unsigned K> static void run()
-    {
-        SymIq q; symIq(q, TY, IQH_SHAPES[K], C08_HASFROM);
-        Handler h; h.outcome = OUTCOME;
-        const bool r = QXmpp::handleIqRequests<QXmppVersionIq, QXmppEntityTimeIq>(q.iq, theClient(), &h);
-        const bool isVersion = q.firstIs(TAG_QUERY, NS_VERSION), isTime = q.firstIs(TAG_TIME, NS_TIME);
-        const bool expect = q.isRequest() && (isVersion || isTime);
-        vp_assert(r == expect, "C08 handleIqRequests accepts exactly the get/set iqs whose first child is one of its payload types");
-        vp_assert(h.calls == (expect ? 1 : 0), "C08 handleIqRequests invokes the handler exactly once for an accepted request, never otherwise");
-        vp_assert(g_nsent == (expect ? 1 : 0), "C08 handleIqRequests sends exactly one reply iff it returns true");
-        if (expect && g_nsent == 1) {
-            vp_assert(h.which == (isVersion ? 1 : 2), "C08 handleIqRequests dispatches on the payload type");
-            checkReply(0, q);
-            vp_assert(replyIsError(0) == (OUTCOME != 0 && !(OUTCOME == 1 && isTime)), "C08 handleIqRequests: error reply iff the handler returned an error");
-            vp_assert(!g_replyHadMeta, "C08 an unencrypted request is answered without e2ee metadata");
-        }
-    }
-};
-extern "C" void h_iqh_handle_result() { internAttrs(); keepHooks(); DISPATCH_REQ(HandleCase<0>::template run); }
-extern "C" void h_iqh_handle_error() { internAttrs(); keepHooks(); DISPATCH_REQ(HandleCase<1>::template run); }
-extern "C" void h_iqh_handle_erroriq() { internAttrs(); keepHooks(); DISPATCH_REQ(HandleCase<2>::template run); }
-extern "C" void h_iqh_handle_resp() { internAttrs(); keepHooks(); DISPATCH_RESP(HandleCase<0>::template run); }
-
-// ------------------------------------------------------------------------------------------------ (3) real managers
-// contract of an extension towards the chain (see h_client.cpp)
-static void checkContract(const SymIq &q, bool r)
-{
-    vp_assert(g_nsent <= 1, "C08 a manager sends at most one stanza for one incoming iq");
-    if (!q.isRequest()) {
-        vp_assert(g_nsent == 0, "C08 a manager never answers an iq of type result, error or an invalid type");
-    } else if (r) {
-        vp_assert(g_nsent == 1, "C08 a manager that claims a get/set iq (handleStanza returns true) sends exactly one reply");
-        if (g_nsent == 1) checkReply(0, q);
-    } else {
-        vp_assert(g_nsent == 0, "C08 a manager that passes a get/set iq on (handleStanza returns false) has sent nothing");
-    }
-}
-template<typename M> struct Raw {
-    VpRaw<M> raw;
-    Raw() { raw->m_client = theClient(); }
-    template<typename P> void setD(P *d) { new (const_cast<std::unique_ptr<P> *>(&raw->d)) std::unique_ptr<P>(d); }
-    M *operator->() { return raw.p(); }
-};
-#define ENTRIES(name, fn) \
-    extern "C" void h_mgr_##name##_req() { symOwnJid(); DISPATCH_REQ(fn); } \
-    extern "C" void h_mgr_##name##_resp() { symOwnJid(); DISPATCH_RESP(fn); }
-
-static constexpr unsigned VERSION_SHAPES[8] = { SH_NONE, SH_PING, SH_VERSION, SH_DISCO_INFO, SH_QUERY_NONS, SH_VCARD_IN_VERSION_NS, SH_PING_THEN_VERSION, SH_TIME };
-template<unsigned TY, unsigned K> static void versionCase()
-{
-    Raw<QXmppVersionManager> m;
-    auto *d = new QXmppVersionManagerPrivate; d->clientName = vpSymString(1); d->clientVersion = vpSymString(1); d->clientOs = vpSymString(1);
-    m.setD(d);
-    SymIq q; symIq(q, TY, VERSION_SHAPES[K], C08_HASFROM);
-    const bool r = m->QXmppVersionManager::handleStanza(q.iq);
-    checkContract(q, r);
-    if (q.isRequest()) vp_assert(r == q.firstIs(TAG_QUERY, NS_VERSION), "C08 the version manager claims exactly the jabber:iq:version requests");
-    if (q.isRequest() && r && g_nsent == 1) vp_assert(!replyIsError(0), "C08 a version request is answered with a result");
-}
-ENTRIES(version, versionCase)
-static constexpr unsigned TIME_SHAPES[8] = { SH_NONE, SH_PING, SH_TIME, SH_VERSION, SH_QUERY_NONS, SH_QUERY_IN_TIME_NS, SH_PING_THEN_TIME, SH_TIME_IN_VCARD_NS };
-template<unsigned TY, unsigned K> static void timeCase()
-{
-    Raw<QXmppEntityTimeManager> m;
-    SymIq q; symIq(q, TY, TIME_SHAPES[K], C08_HASFROM);
-    const bool r = m->QXmppEntityTimeManager::handleStanza(q.iq);
-    checkContract(q, r);
-    if (q.isRequest()) vp_assert(r == q.firstIs(TAG_TIME, NS_TIME), "C08 the entity time manager claims exactly the urn:xmpp:time requests");
-    if (q.isRequest() && r && g_nsent == 1) vp_assert(replyIsError(0) == (q.ty == TY_SET), "C08 entity time: get is answered with a result, set with an error");
-}
-ENTRIES(time, timeCase)
-static constexpr unsigned DISCO_SHAPES[8] = { SH_NONE, SH_PING, SH_DISCO_INFO, SH_DISCO_ITEMS, SH_QUERY_NONS, SH_PING_IN_DISCO_NS, SH_PING_THEN_DISCO, SH_VERSION };
+static constexpr unsigned DISCO_SHAPES[8] = { SH_DISCO_INFO, SH_NONE, SH_PING, SH_DISCO_ITEMS, SH_QUERY_NONS, SH_PING_IN_DISCO_NS, SH_PING_THEN_DISCO, SH_DISCO_INFO };
 template<unsigned TY, unsigned K> static void discoCase()
 {
+    if (TY >= TY_RESULT && K >= RESP_SHAPES) return;
     Raw<QXmppDiscoveryManager> m;
-    auto *d = new QXmppDiscoveryManagerPrivate; d->clientCapabilitiesNode = vpSymString(1);
+    auto *d = new QXmppDiscoveryManagerPrivate; d->clientCapabilitiesNode = L("c");
     m.setD(d);
     SymIq q; symIq(q, TY, DISCO_SHAPES[K], C08_HASFROM);
-    // node attribute of the query (decides item-not-found)
-    { QDomElement c; vp_c08_dom_child(&c, &q.iq, 0); if (!c.isNull()) attr(c, L("node"), vpSymString(1)); }
+    // node attribute of the query: absent (K 0), below the client's capabilities node (K 3), unknown node -> item-not-found error (K 7)
+    { QDomElement c; vp_c08_dom_child(&c, &q.iq, 0); if (K == 3) attr(c, L("node"), L("c1")); if (K == 7) attr(c, L("node"), L("zz")); }
     const bool r = m->QXmppDiscoveryManager::handleStanza(q.iq);
     checkContract(q, r);
+    if (q.isRequest() && r && g_nsent == 1) vp_assert(replyIsError(0) == (K == 7), "C08 discovery: known node answered with a result, unknown node with an error");
     if (q.isRequest()) vp_assert(r == (q.firstIs(TAG_QUERY, NS_DISCO_INFO) || q.firstIs(TAG_QUERY, NS_DISCO_ITEMS)), "C08 the discovery manager claims exactly the disco#info / disco#items requests");
 }
 ENTRIES(disco, discoCase)
-static constexpr unsigned VCARD_SHAPES[8] = { SH_NONE, SH_PING, SH_VCARD, SH_ROSTER, SH_QUERY_NONS, SH_TIME_IN_VCARD_NS, SH_PING_THEN_VCARD, SH_VCARD_IN_VERSION_NS };
+static constexpr unsigned VCARD_SHAPES[8] = { SH_VCARD, SH_NONE, SH_PING, SH_ROSTER, SH_QUERY_NONS, SH_TIME_IN_VCARD_NS, SH_PING_THEN_VCARD, SH_VCARD_IN_VERSION_NS };
 template<unsigned TY, unsigned K> static void vcardCase()
 {
+    if (TY >= TY_RESULT && K >= RESP_SHAPES) return;
     Raw<QXmppVCardManager> m;
     m.setD(new QXmppVCardManagerPrivate);
     SymIq q; symIq(q, TY, VCARD_SHAPES[K], C08_HASFROM);
-#ifdef KF_vcard_request_swallowed
-    if (q.isRequest() && q.firstIs(TAG_VCARD, NS_VCARD)) return;
+#if defined(KF_vcard_request_swallowed) && !defined(C08_DEMO)
+    if (q.isRequest() && q.firstIs(TAG_VCARD, NS_VCARD)) return;    // known finding: demonstrated by the kf_vcard_request instance
 #endif
     const bool r = m->QXmppVCardManager::handleStanza(q.iq);
     checkContract(q, r);
 }
 ENTRIES(vcard, vcardCase)
-static constexpr unsigned ROSTER_SHAPES[8] = { SH_NONE, SH_PING, SH_ROSTER, SH_VCARD, SH_QUERY_NONS, SH_PING_IN_ROSTER_NS, SH_PING_THEN_ROSTER, SH_DISCO_ITEMS };
+static constexpr unsigned ROSTER_SHAPES[8] = { SH_ROSTER, SH_NONE, SH_PING, SH_VCARD, SH_QUERY_NONS, SH_PING_IN_ROSTER_NS, SH_PING_THEN_ROSTER, SH_DISCO_ITEMS };
 template<unsigned TY, unsigned K> static void rosterCase()
 {
+    if (TY >= TY_RESULT && K >= RESP_SHAPES) return;
     Raw<QXmppRosterManager> m;     // private data stays raw: roster IQs without <item/> never touch it (items are C12's subject)
     SymIq q; symIq(q, TY, ROSTER_SHAPES[K], C08_HASFROM);
-#ifdef KF_roster_get_swallowed
-    if (q.ty == TY_GET && q.firstIs(TAG_QUERY, NS_ROSTER)) return;
+#if defined(KF_roster_get_swallowed) && !defined(C08_DEMO)
+    if (q.ty == TY_GET && q.firstIs(TAG_QUERY, NS_ROSTER)) return;  // known finding: demonstrated by the kf_roster_get instance
+#endif
+#if defined(KF_roster_ack_to_missing) && !defined(C08_DEMO)
+    // known finding (kf_roster_ack_to): a push whose 'from' is a full JID of the own account is acknowledged without 'to'
+    if (q.ty == TY_SET && q.firstIs(TAG_QUERY, NS_ROSTER)) vp_assume(q.from.isEmpty() || q.from == g_ownBare || QXmppUtils::jidToBareJid(q.from) != g_ownBare);
 #endif
     const bool r = m->QXmppRosterManager::handleStanza(q.iq);
     checkContract(q, r);
 }
 ENTRIES(roster, rosterCase)
+
+// ------------------------------------------------------------------------------------------------ known findings (demonstrations)
+// Each entry runs exactly the input class that the corresponding KF_ define excludes above; registered with known_finding=<key>.
+extern "C" void h_kf_vcard_request() { symOwnJid(); if (vp_bool()) vcardCase<TY_GET, 0>(); else vcardCase<TY_SET, 0>(); }
+extern "C" void h_kf_roster_get() { symOwnJid(); rosterCase<TY_GET, 0>(); }
+extern "C" void h_kf_roster_ack_to() { symOwnJid(); rosterCase<TY_SET, 0>(); }
